@@ -38,3 +38,75 @@ fn memo_exp32(x: f32) -> f32 {
         r
     }
 }
+// ---- uninterpreted IEEE operations ----------------------------------------------------------------
+// CBMC encodes float division through an implicitly defined quotient (q*b + r == a), so a postcondition
+// that *re-evaluates* a division cannot be discharged (measured: `a/b == a/b` over two evaluations
+// > 150 s; the same for `*`: 39 s).  In the closed-form units `/` and `*` of the code under test (generic
+// over `F: Float`, hence calls to `<f32 as Div>::div` / `<f32 as Mul>::mul`) are therefore replaced by
+// memoised *uninterpreted* functions and the oracle is written with the same symbols: the proof shows
+// w == div(num, den) for EVERY binary function `div`, in particular IEEE division.  No axiom is assumed.
+#[allow(dead_code)] static mut C_DIV_A: [u32; GHOST_CAP] = [0; GHOST_CAP];
+#[allow(dead_code)] static mut C_DIV_B: [u32; GHOST_CAP] = [0; GHOST_CAP];
+#[allow(dead_code)] static mut C_DIV_R: [f32; GHOST_CAP] = [0.0; GHOST_CAP];
+#[allow(dead_code)] static mut C_DIV_N: usize = 0;
+#[allow(dead_code)]
+fn uf_div32(a: f32, b: f32) -> f32 {
+    unsafe {
+        let mut i = 0;
+        while i < C_DIV_N {
+            if C_DIV_A[i] == a.to_bits() && C_DIV_B[i] == b.to_bits() { return C_DIV_R[i]; }
+            i += 1;
+        }
+        let r: f32 = kani::any();
+        if C_DIV_N < GHOST_CAP { C_DIV_A[C_DIV_N] = a.to_bits(); C_DIV_B[C_DIV_N] = b.to_bits(); C_DIV_R[C_DIV_N] = r; C_DIV_N += 1; }
+        r
+    }
+}
+#[allow(dead_code)] static mut C_MUL_A: [u32; GHOST_CAP] = [0; GHOST_CAP];
+#[allow(dead_code)] static mut C_MUL_B: [u32; GHOST_CAP] = [0; GHOST_CAP];
+#[allow(dead_code)] static mut C_MUL_R: [f32; GHOST_CAP] = [0.0; GHOST_CAP];
+#[allow(dead_code)] static mut C_MUL_N: usize = 0;
+#[allow(dead_code)]
+fn uf_mul32(a: f32, b: f32) -> f32 {
+    unsafe {
+        let mut i = 0;
+        while i < C_MUL_N {
+            if C_MUL_A[i] == a.to_bits() && C_MUL_B[i] == b.to_bits() { return C_MUL_R[i]; }
+            i += 1;
+        }
+        let r: f32 = kani::any();
+        if C_MUL_N < GHOST_CAP { C_MUL_A[C_MUL_N] = a.to_bits(); C_MUL_B[C_MUL_N] = b.to_bits(); C_MUL_R[C_MUL_N] = r; C_MUL_N += 1; }
+        r
+    }
+}
+// Division known only to be functional, sign/range correct and MONOTONE on non-negative numerators and
+// positive denominators (correct rounding is monotone: a <= a', b >= b' > 0  =>  a/b <= a'/b').
+// Used where two different quotients must be compared (sigmoid monotonicity): two real dividers time out (> 400 s).
+#[allow(dead_code)] static mut C_MDV_A: [f32; GHOST_CAP] = [0.0; GHOST_CAP];
+#[allow(dead_code)] static mut C_MDV_B: [f32; GHOST_CAP] = [0.0; GHOST_CAP];
+#[allow(dead_code)] static mut C_MDV_R: [f32; GHOST_CAP] = [0.0; GHOST_CAP];
+#[allow(dead_code)] static mut C_MDV_N: usize = 0;
+#[allow(dead_code)]
+fn mono_div32(a: f32, b: f32) -> f32 {
+    let r: f32 = kani::any();
+    let dom = a >= 0.0 && b > 0.0 && a.is_finite() && b.is_finite();
+    if dom {
+        kani::assume(!r.is_nan() && r >= 0.0);
+        if a <= b { kani::assume(r <= 1.0); }
+        if a >= b { kani::assume(r >= 1.0); }
+    }
+    unsafe {
+        let mut i = 0;
+        while i < C_MDV_N {
+            if C_MDV_A[i].to_bits() == a.to_bits() && C_MDV_B[i].to_bits() == b.to_bits() { return C_MDV_R[i]; }
+            let edom = C_MDV_A[i] >= 0.0 && C_MDV_B[i] > 0.0 && C_MDV_A[i].is_finite() && C_MDV_B[i].is_finite();
+            if dom && edom {
+                if a <= C_MDV_A[i] && b >= C_MDV_B[i] { kani::assume(r <= C_MDV_R[i]); }
+                if a >= C_MDV_A[i] && b <= C_MDV_B[i] { kani::assume(r >= C_MDV_R[i]); }
+            }
+            i += 1;
+        }
+        if C_MDV_N < GHOST_CAP { C_MDV_A[C_MDV_N] = a; C_MDV_B[C_MDV_N] = b; C_MDV_R[C_MDV_N] = r; C_MDV_N += 1; }
+    }
+    r
+}
